@@ -26,6 +26,9 @@ func handlerScope(c *cx) ([]*eng.Fn, map[*eng.Fn]string) {
 
 func runC06(p *eng.Prog, r *eng.Report, tier string) {
 	c := &cx{p, r, tier}
+	// C06.32 (= C09.17 / C10.10): no cycle in the lock-order graph: a deadlock between a
+	// writer and Close, or between the serve loop and a requester, ends every guarantee of this property
+	lockOrder(c, "C06.32")
 	c06SendResp(c)
 	c.r.Floor("C06.31", "blocking channel operations", lockHeldAcrossChannelOp(c, "C06.31", ""), 8)
 	c.r.Floor("C06.30", "closers received from a channel", receivedCloserNotDropped(c, "C06.30", func(f *eng.Fn) bool { return true }), 3)
